@@ -370,6 +370,42 @@ def rendered_text(obj: Any) -> str:
     return re.sub(r"\s+", " ", re.sub(r"<[^>]+>", " ", html)).strip()
 
 
+PROP_SRC = ("class C:\n    'doc'\n    @property\n    def x(self):\n        'real doc of x'\n        return 1\n    'a stray string after the property'\n"
+            "    @property\n    def nodoc(self):\n        return 1\n    'a stray string after a property without docstring'\n"
+            "    @property\n    def y(self):\n        'doc of y'\n    @y.setter\n    def y(self, v):\n        'doc of the setter'\n    'a stray string after the setter'\n"
+            "    def f(self):\n        'doc of f'\n    'a stray string after a method'\n"
+            "    class N:\n        'doc of N'\n    'a stray string after a nested class'\n"
+            "    @property\n    def z(self):\n        'doc of z'\n    z.__doc__ = 'z set by assignment'\n"
+            "def g():\n    'doc of g'\n'a stray string after a function'\n")
+_PROP_ORACLE = ("import sys, json, inspect, importlib; sys.path.insert(0, sys.argv[1]); m = importlib.import_module(sys.argv[2]); out = {}\n"
+                "out['g'] = m.g.__doc__\n"
+                "for k, w in vars(m.C).items():\n"
+                "    if k.startswith('__'): continue\n"
+                "    out['C.' + k] = w.__doc__\n"
+                "print(json.dumps(out))")
+
+
+def check_property_docstrings(scratch: Path) -> List[Dict[str, Any]]:
+    """A bare string documents the ASSIGNMENT it follows, nothing else: after the definition of a property (a method, a nested class, a
+       function) it is not a docstring of anything.  Compared with the __doc__ CPython gives every member."""
+    base = scratch / "propdoc"
+    base.mkdir(parents=True)
+    (base / "propmod.py").write_text(PROP_SRC)
+    r = subprocess.run([sys.executable, "-I", "-c", _PROP_ORACLE, str(base), "propmod"], capture_output=True, text=True, timeout=60)
+    if r.returncode != 0:
+        raise RuntimeError("property docstring oracle failed: " + r.stderr[-400:])
+    want = json.loads(r.stdout)
+    b = P.build_sources(paths=[base / "propmod.py"], record_states=False)
+    out: List[Dict[str, Any]] = []
+    for name, doc in sorted(want.items()):
+        o = b["system"].allobjects.get("propmod." + name)
+        if o is None:
+            out.append({"object": name, "expected": doc, "got": None, "what": "property docstrings: missing member"})
+        elif (o.docstring or None) != (doc or None):
+            out.append({"object": name, "expected": doc, "got": o.docstring, "what": "property docstrings: docstring in the model"})
+    return out
+
+
 def check(scratch: Path) -> List[Dict[str, Any]]:
     base = scratch / "docassign"
     for rel, text in FILES.items():
@@ -395,4 +431,4 @@ def check(scratch: Path) -> List[Dict[str, Any]]:
             shown = rendered_text(o)
             if doc not in shown:
                 out.append({"object": name, "expected": doc, "got": shown[:200], "what": "docstring as rendered"})
-    return out + check_fields(scratch) + check_overload_neighbours(scratch) + check_rebuild_history(scratch) + check_statics(scratch) + check_blank_docstrings(scratch) + check_assignment_targets(scratch) + check_async_kinds(scratch) + check_overriding_variables(scratch)
+    return out + check_fields(scratch) + check_overload_neighbours(scratch) + check_rebuild_history(scratch) + check_statics(scratch) + check_blank_docstrings(scratch) + check_assignment_targets(scratch) + check_async_kinds(scratch) + check_overriding_variables(scratch) + check_property_docstrings(scratch)
